@@ -26,7 +26,10 @@ func (u *Unit) mapInfo(t types.Type) *mapInfo {
 	mi.domSite = "map." + mi.key + ".dom"
 	mi.lenSite = "map." + mi.key + ".len"
 	for j := range mi.vLeaves {
-		mi.valSite = append(mi.valSite, fmt.Sprintf("map.%s.val#%d", mi.key, j))
+		site := fmt.Sprintf("map.%s.val#%d", mi.key, j)
+		mi.valSite = append(mi.valSite, site)
+		mapValKind[site] = mi.vLeaves[j]
+		mapKeySort[site] = mi.kSort
 	}
 	return mi
 }
